@@ -23,6 +23,7 @@ import json
 import os
 import re
 import sys
+import time
 
 import lib
 from lib import Case, log
@@ -77,7 +78,7 @@ KNOWN_IPV = "F-C02-inplace-vector-default-init"
 # CT cases that are known findings (id -> finding id)
 CT_KNOWN = {"ipv_default_1": KNOWN_IPV, "ipv_default_16": KNOWN_IPV, "ipv_default_256": KNOWN_IPV}
 
-_LAST = {"default_init_objects": 0, "value_init_objects": 0}
+_LAST = {"default_init_objects": 0, "value_init_objects": 0, "corollaries_up_to_date": None}
 
 
 def generate(tier, seed):
@@ -125,8 +126,8 @@ def group_of(case):
 
 class _Theorems(dict):
     """operation -> theorems of Props.lean that speak about it (for the replay file)"""
-    FAMILY = {"vec": ["vec_history_no_error", "vec_step_no_oob", "default_init_defined_partial"],
-              "set": ["set_history_no_error", "set_step_no_oob"], "bits": ["bitset_history_no_error", "bitset_step_no_oob"],
+    FAMILY = {"vec": ["vec_history_no_error", "vec_step_no_oob", "default_init_defined_partial", "life_vec_history_safe_no_lifetime_error"],
+              "set": ["set_history_no_error", "set_step_no_oob", "set_lookup_no_oob", "life_set_history_safe_no_lifetime_error"], "bits": ["bitset_history_no_error", "bitset_step_no_oob"],
               "str": ["string_history_terminator_in_buffer", "string_history_no_error", "string_step_no_oob"],
               "sv": ["sv_find_no_oob", "sv_rfind_no_oob", "sv_compare_no_oob", "sv_copy_no_oob", "sv_substr_no_oob"],
               "alg": ["alg_*_no_oob"], "span": ["span_subspan_no_oob", "span_mdspan_access_no_oob", "span_mdspan_offset_in_span"],
@@ -141,8 +142,22 @@ class _Theorems(dict):
 THEOREMS = _Theorems()
 
 
+def corollaries_status():
+    """gen/c02_props.py --check: are the corollaries of Props.lean those of the CURRENT theorems of the other properties?
+    -> (up_to_date, report)"""
+    rc, out, err = lib.sh([sys.executable, os.path.join(lib.VERIF, "gen", "c02_props.py"), "--check"], timeout=120)
+    return rc == 0, (out + err).strip()
+
+
 def regenerate(ctx):
-    """tie T for the kernel `_ub` theorems: the calendar kernels are regenerated from the current source"""
+    """tie T for the kernel `_ub` theorems: the calendar kernels are regenerated from the current source.  The corollaries
+    themselves are NOT rewritten by a check run (a check never edits theorem statements); a stale Props.lean is reported
+    here, by name, and — when a cited theorem was renamed or its hypotheses changed — stops the build of
+    TetlProofs.C02.Props with "C02 corollary out of date" (TetlProofs/C02/Lemmas.lean)."""
+    ok, report = corollaries_status()
+    if not ok:
+        log("NOTE framework, not library: " + report.replace("\n", "\n  "))
+    _LAST["corollaries_up_to_date"] = ok
     from props import c11
     return c11.regenerate(ctx)
 
@@ -231,6 +246,153 @@ def _build_parts(src, out_name, extra_flags=(), repo=None, std_flags=None):
                 os.unlink(f)
 
 
+# ------------------------------------------------------------------ thorough-tier leg: the other properties' streams under the C02 observers
+
+# properties whose harness is one translation unit driven by the standard flow (generate -> harness | driver)
+FOREIGN = ["C01", "C03", "C04", "C06", "C08", "C09", "C10", "C11", "C14", "C17", "C18", "C20"]
+FOREIGN_CAP = 120000          # cases per property (a seeded sample of the stream beyond that)
+OBS_FLAGS = ["-include", os.path.join(lib.VERIF, "harness", "c02_observe.hpp"), "-finstrument-functions",
+             "-finstrument-functions-exclude-file-list=/usr/,proto.hpp,c02_observe.hpp", "-rdynamic",
+             "-ftrivial-auto-var-init=pattern"]
+
+
+def _foreign_mod(fp):
+    import importlib
+    return importlib.import_module("props." + fp.lower())
+
+
+def _foreign_build(fp, fmod):
+    flags = [f for f in getattr(fmod, "HARNESS_FLAGS", [])] + OBS_FLAGS
+    return lib.build_harness(fmod.HARNESS, "c02_obs_%s_harness" % fp.lower(), flags)
+
+
+def _read_stats(path):
+    calls = allocs = 0
+    where = set()
+    if os.path.exists(path):
+        for ln in open(path):
+            kv = dict(t.split("=", 1) for t in ln.split() if "=" in t)
+            calls += int(kv.get("guarded_calls", 0))
+            allocs += int(kv.get("allocs", 0))
+            if kv.get("where", "-") != "-":
+                where.update(kv["where"].split(";"))
+        os.unlink(path)
+    return calls, allocs, sorted(where)
+
+
+def _foreign_run(ctx, fmod, exe, cases, stats_path):
+    env = dict(getattr(fmod, "HARNESS_ENV", None) or {})
+    env["C02_STATS"] = stats_path
+    results = lib.run_batch(ctx, cases, exe, fmod.DRIVER, harness_env=env)
+    return results, _read_stats(stats_path)
+
+
+def _alloc_case(ctx, fmod, exe, cases, stats_path):
+    """smallest-index case of `cases` during which the library allocates (bisection on the stats file)"""
+    lo, hi = 0, len(cases)
+    while hi - lo > 1:
+        mid = (lo + hi) // 2
+        _, (_, allocs, _) = _foreign_run(ctx, fmod, exe, cases[lo:mid], stats_path)
+        if allocs:
+            hi = mid
+        else:
+            lo = mid
+    return cases[lo]
+
+
+def foreign_leg(ctx, only=None):
+    """The union of the other properties' generator streams (their quick streams, seeded by this run) executed on THEIR
+    harnesses built with the C02 observers (harness/c02_observe.hpp): allocation counting while a library function is on
+    the stack, every automatic object of the harness pattern-filled, ASan/UBSan; values compared with the owning
+    property's model and spec.  -> coverage entry"""
+    import concurrent.futures as cf
+    import random
+    props = [fp for fp in FOREIGN if not only or fp in only]
+    mods = {fp: _foreign_mod(fp) for fp in props}
+    ok, out = lib.lake_build(sorted({m.DRIVER for m in mods.values()}))
+    if not ok:
+        raise lib.MachineryError("foreign-stream leg: drivers do not build: " + lib.first_lean_error(out))
+    with cf.ThreadPoolExecutor(max_workers=6) as ex:
+        built = dict(zip(props, ex.map(lambda fp: _foreign_build(fp, mods[fp]), props)))
+    per, skipped = {}, {}
+    stats_path = os.path.join(lib.BUILD, "c02_obs_stats_%s.txt" % ctx.run_id)
+    for fp in props:
+        exe, err = built[fp]
+        fmod = mods[fp]
+        if exe is None:
+            # the harness of another property that does not compile with the observers is not a fact about the library
+            skipped[fp] = "harness does not build with the observers: " + err.strip().splitlines()[-1][:200] if err.strip() else "build failed"
+            log("NOTE foreign-stream leg: %s skipped (%s)" % (fp, skipped[fp]))
+            continue
+        t0 = time.time()
+        cases, _, _ = fmod.generate("quick", ctx.seed)
+        if len(cases) > FOREIGN_CAP:
+            cases = random.Random(ctx.seed).sample(cases, FOREIGN_CAP)
+        results, (calls, allocs, where) = _foreign_run(ctx, fmod, exe, cases, stats_path)
+        fails = [f for f in lib.evaluate(cases, results) if f.kind in ("R1", "R3")]
+        known = lib.load_known(fp)
+        hits, reported = 0, 0
+        for f in sorted(fails, key=lambda f: (len(f.case.text()), f.case.text())):
+            fid = None
+            try:
+                fid = fmod.classify(f.case, f.line_idx, f.row)
+            except Exception:       # noqa: the classifier of another property must not stop this leg
+                fid = None
+            if fid and known.get(fid, {}).get("status") == "known":
+                hits += 1
+                continue
+            reported += 1
+            if reported > 2:
+                continue
+            ctx.violation({"kind": "foreign_stream_case", "foreign": fp, "cases": f.case.lines, "failing_line": f.line_idx,
+                           "impl": f.row.impl, "model": f.row.model, "spec": f.row.spec, "std": f.row.std,
+                           "theorems": [], "lean_error": None, "source": lib.source_hashes(SOURCES),
+                           "failing_input_found": True,
+                           "explanation": "a case of the %s stream, run on harness/%s built with the C02 observers (pattern-filled automatic "
+                                          "objects, ASan/UBSan, allocation hook), differs from the %s model/spec" % (fp, os.path.basename(fmod.HARNESS), fp)},
+                          found=True)
+        if allocs:
+            case = _alloc_case(ctx, fmod, exe, cases, stats_path)
+            ctx.violation({"kind": "foreign_alloc", "foreign": fp, "cases": case.lines, "impl": "alloc in " + ";".join(where),
+                           "model": "no allocation", "spec": "no allocation", "std": "-", "theorems": [], "lean_error": None,
+                           "source": lib.source_hashes(SOURCES), "failing_input_found": True,
+                           "explanation": "%d allocations were made while a function of namespace etl was on the stack (innermost: %s) "
+                                          "during the %s stream" % (allocs, ";".join(where), fp)}, found=True)
+        per[fp] = {"cases": len(cases), "lines": sum(len(c.lines) for c in cases), "library_entries_observed": calls,
+                   "allocations_under_library_frames": allocs, "known_finding_hits_of_owner": hits,
+                   "unexplained_differences": reported, "wall_s": round(time.time() - t0, 1)}
+        log("  foreign stream %s: %d cases, %d entries into the library observed, %d allocations, %d differences (%d known to %s), %.0fs"
+            % (fp, len(cases), calls, allocs, reported, hits, fp, time.time() - t0))
+    return {"how": "quick streams of the listed properties on their own harnesses compiled with -include harness/c02_observe.hpp "
+                   "-finstrument-functions -ftrivial-auto-var-init=pattern (allocation hook armed while a function of namespace etl is "
+                   "the innermost instrumented frame); values compared with the owners' drivers",
+            "properties": per, "skipped": skipped,
+            "library_entries_observed": sum(v["library_entries_observed"] for v in per.values()),
+            "allocations_under_library_frames": sum(v["allocations_under_library_frames"] for v in per.values()),
+            "lines": sum(v["lines"] for v in per.values())}
+
+
+def foreign_replay(ctx, rp):
+    fp = rp["foreign"]
+    fmod = _foreign_mod(fp)
+    ok, out = lib.lake_build([fmod.DRIVER])
+    exe, err = _foreign_build(fp, fmod)
+    if not ok or exe is None:
+        log("MACHINERY-ERROR foreign replay: %s" % (err[-600:] if exe is None else lib.first_lean_error(out)))
+        return 2
+    case = Case(rp["cases"], "replay")
+    stats_path = os.path.join(lib.BUILD, "c02_obs_stats_%s.txt" % ctx.run_id)
+    results, (calls, allocs, where) = _foreign_run(ctx, fmod, exe, [case], stats_path)
+    for ln, r in zip(case.lines, results[0]):
+        log("%-50s impl=%s model=%s spec=%s std=%s" % (ln, r.impl, r.model, r.spec, r.std))
+    log("library entries observed=%d allocations under library frames=%d %s" % (calls, allocs, ";".join(where)))
+    bad = [f.kind for f in lib.evaluate([case], results) if f.kind in ("R1", "R3")]
+    if rp["kind"] == "foreign_alloc":
+        bad = ["alloc"] if allocs else []
+    log("replay: %s" % ("FAILS " + ",".join(bad) if bad else "passes"))
+    return 1 if bad else 0
+
+
 def _standard(mod, ctx, replay):
     import __main__ as chk
     if not hasattr(chk, "standard"):
@@ -260,6 +422,8 @@ def run(ctx, replay=None):
             bad = [cid for cid, r in res.items() if not r["ok"]]
             log("replay: %s" % ("FAILS " + ",".join(bad) if bad else "passes"))
             return 1 if bad else 0
+        if rp.get("kind") in ("foreign_alloc", "foreign_stream_case"):
+            return foreign_replay(ctx, rp)
         return _standard(mod, ctx, replay)
 
     # compile-time leg first: cheap, and its verdicts are independent of the run-time stream
@@ -288,6 +452,12 @@ def run(ctx, replay=None):
     if ct_reported > 3:
         log("  (%d further compile-time cases rejected, not listed: %s)" % (ct_reported - 3, sorted(c for c in ct_failed if c not in CT_KNOWN)[3:]))
     rc = _standard(mod, ctx, None)
+    foreign = None
+    if ctx.tier == "thorough" and rc in (0, 1):
+        nv = len(ctx.violations)
+        foreign = foreign_leg(ctx)
+        if len(ctx.violations) > nv:
+            rc = 1
 
     # observed-only clauses: counts measured on this run go into the evidence
     calls = allocs = news = 0
@@ -321,8 +491,15 @@ def run(ctx, replay=None):
                                    "rejected": {cid: r["diagnostic"] for cid, r in ct_failed.items()},
                                    "known": {cid: CT_KNOWN[cid] for cid in ct_failed if cid in CT_KNOWN},
                                    "cmd": " ".join([lib.CXX] + CT_FLAGS + ["-I $VERIF_REPO/include", CT_SOURCE])}
+        if foreign is not None:
+            cov["foreign_streams_under_c02_observers"] = foreign
+            cov["evaluations"] = cov.get("evaluations", 0) + foreign["lines"]
+            cov["unproved_observed"][0]["foreign_streams"] = ("%d entries into the library observed on the other properties' streams, %d allocations"
+                                                              % (foreign["library_entries_observed"], foreign["allocations_under_library_frames"]))
+        cov["corollaries_follow_current_theorems"] = _LAST["corollaries_up_to_date"]   # gen/c02_props.py --check on this run
         cov["evaluations"] = cov.get("evaluations", 0) + len(ct)
         ev["violations"] = len(ctx.violations)
+        ev["wall_s"] = round(time.time() - ctx.t0, 2)       # compile-time leg and foreign-stream leg included
         json.dump(ev, open(ev_path, "w"), indent=1)
     if allocs and rc == 0:
         log("MACHINERY-ERROR %d allocations under the guard were counted but no line reported them" % allocs)
@@ -330,7 +507,7 @@ def run(ctx, replay=None):
     return rc
 
 
-CLAIMED = False  # temporarily: the corollaries must follow the restated theorems of C01, C09, C15, C19 … (Props.lean.pending)
+CLAIMED = True
 TECHNIQUE = ("Lean 4 proof (safety corollaries of the owning properties' refinement theorems + `_ub` obligations of the regenerated calendar "
              "kernels) + differential boundary run under ASan/UBSan with exact-size heap objects, allocation hooks and poisoned "
              "default-initialisation + compile-time leg (GCC constant evaluator)")
@@ -338,7 +515,8 @@ LEVEL_TEXT = ("For every modelled operation of the containers, strings and views
               "bit/numeric helpers it is proved in Lean 4 — for all inputs, states, valid histories and capacities, no size bound — that the "
               "model, which reads and writes only through checked accessors, never returns an error (no access outside the object's inline "
               "storage or the caller's ranges, no violated internal precondition, no invalid shift or signed overflow in the integer models), "
-              "as corollaries of the refinement theorems of the owning properties; the undefined-behaviour obligations of the calendar kernels "
+              "as corollaries of the refinement theorems of the owning properties, and that on every valid history of the owning containers no "
+              "element is used after its destruction, constructed over a live one or destroyed twice (corollaries of C03); the undefined-behaviour obligations of the calendar kernels "
               "regenerated from the source are proved; every state member read by member functions of a default-initialised object is proved "
               "to have an initializer, except inplace_vector's size (known finding, counterexample proved). The models are tied to the "
               "current source on every run by a boundary stream of valid operations executed on tetl, libstdc++/glibc, model and spec, with "
@@ -352,15 +530,15 @@ LEVEL_NOTE = ("Partial: 'never calls a dynamic allocator' and 'reads no uninitia
 # modelled/observed operations whose safety is NOT covered by a theorem of Props.lean (differential run only)
 CORRESPONDENCE_ONLY = [
     "C-library number parsers strtol/strtoul/atoi… inside C10's known-finding classes (leading '+', base prefix, out-of-range, '-' on unsigned): "
-    "only charconv_strto_no_oob_partial / charconv_ato_no_oob_partial",
+    "only charconv_strto_no_oob_partial / charconv_strto_auto_no_oob_partial / charconv_cstrto_no_oob_partial / charconv_ato_no_oob_partial",
     "to_floating_point / from_floating_point (strtod family): no model",
     "cctype / cwctype predicates: total functions over int, no buffer (C18 proves their values; nothing to state for C02 beyond UBSan observation)",
     "integer comparison helpers cmp_less … in_range (C14): total functions, no error case in the model",
     "bitset::to_ulong/to_ullong for N > 64 (absent API, C17 known finding)",
     "span element access operator[]/front/back and array<T,N> members: observed by the run-time stream only",
-    "inplace_string::replace family (C04 known finding F-C04-replace-overwrites-only: the model mirrors the defect, no safety theorem)",
+    "inplace_string::replace family: safety only inside the hypotheses of C04's partial theorems (string_replace*_no_oob_partial; "
+    "C04 known finding F-C04-replace-overwrites-only)",
     "mem* functions on overlapping or type-punned storage beyond C18's byte model",
-    "constructors/destructors of non-trivial element types (lifetime is property C03)",
 ]
 UNPROVED_OBSERVED = ["never calls a dynamic allocator (observed: allocation hooks armed during every library call of the stream; compile-time leg)",
                      "reads no uninitialised value (observed: poisoned default-initialised objects, -ftrivial-auto-var-init=pattern, constant "
